@@ -35,6 +35,10 @@ func init() {
 			ruleSizeLaw(c)
 			ruleFrame(c)
 			ruleLookupStateless(c, []string{"plenccodec.StructCodec.Read"})
+			// the varint of every tag, length and value has the protobuf length; a pointer field keeps its option
+			ruleVarSize(c)
+			rulePtrTag(c)
+			rulePtime(c)
 		},
 	})
 }
